@@ -1,0 +1,21 @@
+//go:build verif
+
+// Contracts for the sgn0 helpers of hash-to-curve (RFC 9380 4.1), comment-only; installed by /verif/gcv
+// gen-contracts. Machine-word layer: the argument is a Montgomery representation, reg(v) is the integer it denotes
+// (fp.Element.Bits is used through its own contract, proved under C08). sgn0 of an element of Fp is its parity;
+// for an element x0 + x1 u of Fp2 it is parity(x0), or parity(x1) when x0 = 0.
+
+package hash_to_curve
+
+//@ func G1Sgn0
+//@ option field fp
+//@ requires val(z) < q
+//@ ensures[value] result == reg(val(z)) % 2
+//@ modifies nothing
+//@ end
+
+//@ func G1NotZero
+//@ option field fp
+//@ ensures[value] (result == 0) == (val(x) == 0)
+//@ modifies nothing
+//@ end
